@@ -1012,6 +1012,29 @@ func ruleC19Footnotes(c *Ctx) {
 			}
 		}
 	}
+	if !okCite {
+		// one return per case: the citation of a known footnote is built from
+		// the number looked up, that of a new one from the number recorded
+		isNumberPhi = func(v ssa.Value) bool {
+			if ex, ok := v.(*ssa.Extract); ok && ex.Tuple == ssa.Value(lookup) && ex.Index == 0 {
+				return true
+			}
+			return c.resolve(v) == c.resolve(mapUpd.Value)
+		}
+		all, n := true, 0
+		for _, ret := range returnsOf(cc) {
+			for _, v := range c.resultValues(ret, 0) {
+				if s, isConst := constStr(v); isConst && s == "" {
+					continue
+				}
+				n++
+				if !fromNumber(v, 0) {
+					all = false
+				}
+			}
+		}
+		okCite = all && n >= 2
+	}
 	if okCite {
 		c.hold("C19.footnotes", "citation-number", cc.Pos(), "the citation carries the recorded number (old) or the new one")
 	} else {
@@ -1070,6 +1093,51 @@ func ruleC19Footnotes(c *Ctx) {
 						if isPosPlusOne(a) {
 							okPos = true
 						}
+					}
+				}
+			}
+		}
+	}
+	if !okPos {
+		// the loop counts the numbers and indexes the list with number-1
+		for _, l := range loopsOf(str) {
+			var formatted []ssa.Value
+			var indexes []ssa.Value
+			for b := range l.Blocks {
+				for _, in := range b.Instrs {
+					switch x := in.(type) {
+					case *ssa.IndexAddr:
+						indexes = append(indexes, x.Index)
+					case *ssa.Call:
+						q := calleeQ(&x.Call)
+						switch {
+						case q == "fmt.Sprintf" || q == "fmt.Fprintf":
+							for _, el := range c.sliceElemValues(x.Call.Args[len(x.Call.Args)-1]) {
+								if mi, ok := el.(*ssa.MakeInterface); ok {
+									formatted = append(formatted, mi.X)
+								}
+							}
+						case q == "strconv.Itoa" || q == "strconv.FormatInt" || q == "strconv.FormatUint":
+							a := x.Call.Args[0]
+							if cv, isConv := a.(*ssa.Convert); isConv {
+								a = cv.X
+							}
+							formatted = append(formatted, a)
+						}
+					}
+				}
+			}
+			for _, i := range indexes {
+				bo, ok := i.(*ssa.BinOp)
+				if !ok || bo.Op != token.SUB {
+					continue
+				}
+				if k, isK := constInt(bo.Y); !isK || k != 1 {
+					continue
+				}
+				for _, f := range formatted {
+					if f == bo.X {
+						okPos = true
 					}
 				}
 			}
